@@ -12,4 +12,5 @@ Separate Extraction
   BinNat.N.add BinNat.N.mul BinNat.N.div_eucl BinInt.Z.of_N BinInt.Z.to_N
   RecoverTable.table Panic.find_cell Panic.cells Panic.cell_name Panic.verdict_of Panic.verdict_name
   Panic.recovering_frame Panic.stack_names Panic.applicable Panic.escaped Panic.contained
-  Panic.table_accounted Panic.goroutines_present Panic.unresolved_entries.
+  Panic.table_accounted Panic.goroutines_present Panic.unresolved_entries
+  Panic.format_shielded Panic.during_teardown_ok Panic.udp_max_body.
